@@ -37,6 +37,9 @@ pub struct Conn {
     pub life: Life,
     /// socket events (lines, codec errors, EOF) written but not yet handled
     pub avail: usize,
+    /// lines "in flight": sent by the client but not yet readable by the server
+    /// (kept on the harness side so that no select! branch can see them early)
+    pub held: std::collections::VecDeque<Vec<u8>>,
     /// model of the codec: bytes written that do not yet form a line
     partial: Vec<u8>,
     codec_dead: bool,
@@ -57,6 +60,7 @@ impl Conn {
             client: None,
             life: Life::Unconnected,
             avail: 0,
+            held: std::collections::VecDeque::new(),
             partial: vec![],
             codec_dead: false,
             client_closed: false,
@@ -363,14 +367,35 @@ impl World {
         }
     }
 
-    /// Handle all pending socket events of connection `i`.
+    /// Put a line in flight for connection `i` (the server cannot see it yet).
+    pub fn hold_line(&mut self, i: usize, line: &str) {
+        let mut b = line.as_bytes().to_vec();
+        b.extend_from_slice(b"\r\n");
+        self.conns[i].held.push_back(b);
+    }
+
+    /// Handle all pending socket events of connection `i` (lines in flight
+    /// arrive now, in order).
     pub fn pump_socket(&mut self, i: usize) -> Result<(), MachineryError> {
-        while self.conns[i].avail > 0 && self.conns[i].is_live() {
+        loop {
+            if !self.conns[i].is_live() {
+                break;
+            }
+            if self.conns[i].avail == 0 {
+                match self.conns[i].held.pop_front() {
+                    Some(chunk) => {
+                        self.write_raw(i, &chunk);
+                        continue;
+                    }
+                    None => break,
+                }
+            }
             self.conns[i].avail -= 1;
             self.run_directive(i, Directive::Socket)?;
         }
         if !self.conns[i].is_live() {
             self.conns[i].avail = 0;
+            self.conns[i].held.clear();
         }
         Ok(())
     }
